@@ -156,6 +156,8 @@ def s_div(a, b):
       raise ZeroDivisionError('division of symbolic by concrete zero')
     return lift(a) * lift(1 / Fraction(b))
   la, lb = lift(a), lift(b)
+  if la.eq(lb):
+    return 1      # x / x (definedness of the denominator is recorded by the caller)
   if is_int_term(la):
     la = z3.ToReal(la)
   if is_int_term(lb):
@@ -432,6 +434,7 @@ class Ctx:
     self.rand = {}
     self.sqrt_hook = None     # optional f(ctx, a) -> value or None
     self.saturate = False
+    self.pair_cos_min = None
     self.sqrt_candidates = []  # candidate closed forms r for sqrt arguments (checked by lemma queries)
     self.sqrt_folded = {}
     self.lemma_stats = {'queries': 0, 'folded': 0, 'time': 0.0}
@@ -462,6 +465,15 @@ class Ctx:
       if r is not None:
         return r
     k = a.get_id()
+    if k not in self.sqrts and z3.is_mul(a) and len(a.children()) == 2 and a.children()[0].eq(a.children()[1]):
+      # sqrt(x*x) = |x|: fold to x (or -x) when the sign of x is decided under assume + side
+      x = a.children()[0]
+      r = self.fold_bool(x >= 0) if self.fold else None
+      if r is True:
+        return x
+      r2 = self.fold_bool(x <= 0) if self.fold else None
+      if r2 is True:
+        return -x
     if k not in self.sqrts and self.sqrt_candidates:
       r = self._sqrt_by_lemma(a)
       if r is not None:
@@ -537,6 +549,8 @@ class Ctx:
       else:
         s, c = self.fresh('sin'), self.fresh('cos')
         self.side.append(s * s + c * c == 1)
+        if self.pair_cos_min is not None:
+          self.side.append(c >= lift(self.pair_cos_min))   # harness fact: half-angles of coordinates in a bounded range
         self.trig[key] = (s, c, lift(a))
     return self.trig[key][:2]
 
